@@ -84,6 +84,7 @@ type QueueCase struct {
 	StartAfter int   `json:"start_after"` // Start is called once this many pushes were attempted (0 = before any)
 	CloseAfter int   `json:"close_after"` // Close once this many pushes were attempted; -1 = after draining everything
 	FailAt     int   `json:"fail_at"`     // the n-th executed item returns an error (-1 = never)
+	ErrWorkUS  int   `json:"err_work_us"` // time the OnError handler takes, microseconds
 	WorkNS     []int `json:"work_ns"`     // per-execution busy time pattern (cycled), ns
 	YieldEvery int   `json:"yield_every"` // producers call Gosched every n pushes (0 = never)
 }
@@ -132,6 +133,7 @@ func runQueue(c QueueCase) (*queueStats, error) {
 	var mu sync.Mutex
 	var execs []execRec
 	var onErr []int64
+	var onErrEnd atomic.Int64
 	execCount := 0
 	var executedN atomic.Int64
 
@@ -141,6 +143,14 @@ func runQueue(c QueueCase) (*queueStats, error) {
 			mu.Lock()
 			onErr = append(onErr, clock.Add(1))
 			mu.Unlock()
+			// the handler takes a little while (the real ones hand the error to another goroutine)
+			if c.ErrWorkUS > 0 {
+				t0 := time.Now()
+				for time.Since(t0) < time.Duration(c.ErrWorkUS)*time.Microsecond {
+					runtime.Gosched()
+				}
+			}
+			onErrEnd.Store(clock.Add(1))
 		},
 	}
 	p.Initialize()
@@ -248,6 +258,14 @@ func runQueue(c QueueCase) (*queueStats, error) {
 		return st, fmt.Errorf("Close did not return within 10 s; goroutines:\n%s", gortsplibStacks())
 	}
 	closeResp = clock.Add(1)
+	// the error report is part of what the consumer does: when it has started, Close returns only after it has ended,
+	// and it never starts after Close has returned
+	mu.Lock()
+	nErr := len(onErr)
+	mu.Unlock()
+	if nErr > 0 && onErrEnd.Load() == 0 {
+		return st, fmt.Errorf("Close returned while OnError was still running (a processing error had been reported before Close was called)")
+	}
 	<-producersDone
 	// anything executing after Close returned?
 	time.Sleep(200 * time.Microsecond)
